@@ -317,7 +317,7 @@ Examples:
         if list_or_tuple_or_ndarray(variables):
             vars = get_variables(mystring,'_')
             indices = [int(v.strip('_')) for v in vars]
-            for i in reversed(range(len(vars))):
+            for i in sorted(range(len(vars)), key=lambda i: -indices[i]):
                 mystring = mystring.replace(vars[i],variables[indices[i]])
         return mystring
 
@@ -508,7 +508,7 @@ Examples:
         if list_or_tuple_or_ndarray(variables):
             vars = get_variables(mystring,'_')
             indices = [int(v.strip('_')) for v in vars]
-            for i in reversed(range(len(vars))):
+            for i in sorted(range(len(vars)), key=lambda i: -indices[i]):
                 mystring = mystring.replace(vars[i],variables[indices[i]])
         return mystring
 
@@ -791,7 +791,7 @@ Examples:
         if list_or_tuple_or_ndarray(variables):
             vars = get_variables(mystring,'_')
             indices = [int(v.strip('_')) for v in vars]
-            for i in reversed(range(len(vars))):
+            for i in sorted(range(len(vars)), key=lambda i: -indices[i]):
                 mystring = mystring.replace(vars[i],variables[indices[i]])
         return mystring
 
